@@ -1,5 +1,8 @@
 import TongoProofs.Lemmas.Wallet
 import TongoProofs.Lemmas.CellOrdSpec
+import TongoGen.WalletV5Id
+import TongoProofs.Lemmas.GenTiesB
+import TongoModel.WalletSeed
 /-! Property C15 — wallet address and send parameters follow from key, version and chain state.
 
 Model: `TongoModel/Wallet.lean` (data layouts, state-init, address), `TongoModel/WalletSend.lean`
@@ -373,6 +376,222 @@ theorem confirm_ok_false_before_fix :
       (∃ p ∈ polls.takeWhile (fun p => decide (p.elapsed < wait)), p.err = false ∧ p.seqno > seqno) ∧
       confirmLoopV0 wait seqno polls = false :=
   ⟨10, 0, [{ elapsed := 0, seqno := 1, err := false }], by decide, by decide⟩
+
+/-! ### the v5r1 wallet id: regenerated Go code against the model -/
+
+/-- tie (X4, regenerated from wallet/wallet_v5.go): the Go function `genContextID(uint32(workchain))`, translated to
+`BitVec` arithmetic on every run (`Gen.WalletV5Id.genContextID`), equals the model's `Wallet.genContextID` for every
+integer workchain. The translator renders `boc.Cell.WriteUint`/`ReadUint` on a fresh cell as shift-or on an
+accumulator: that semantics of `WriteUint/ReadUint` is trusted here and proved for the model in C06. -/
+theorem gen_genContextID (wc : Int) :
+    (Gen.WalletV5Id.genContextID (BitVec.ofInt 32 wc)).toNat = Wallet.genContextID wc :=
+  GenTies.gen_genContextID wc
+
+/-- tie (X4, regenerated from wallet/wallet_v5.go): the block of `NewWalletV5R1`
+`contextID := int64(genContextID(uint32(workchain))); walletID := contextID ^ networkGlobalID`, stored as
+`uint32(walletID)`, on a Go `int` workchain and the `int64` of an `int32` network id, equals the model's
+`genContextID wc ^^^ toU32 net`. (The semantics of `boc.Cell.WriteUint/ReadUint` on a fresh cell used by the
+translator inside `genContextID` is trusted here and proved for the model in C06.) -/
+theorem gen_walletID (wc net : Int) (hw : -(2 : Int) ^ 63 ≤ wc ∧ wc < 2 ^ 63)
+    (hn : -(2 : Int) ^ 31 ≤ net ∧ net < 2 ^ 31) :
+    (Gen.WalletV5Id.walletID (BitVec.ofInt 64 wc) (BitVec.ofInt 64 net)).toNat
+      = Wallet.genContextID wc ^^^ Wallet.toU32 net :=
+  GenTies.gen_walletID wc net hw hn
+
+/-- tie (X4, regenerated from wallet/wallet_v5.go): on the options of a wallet the regenerated block computes the
+`walletIdV5R1` that `dataBitsSeq` stores in the v5r1 data cell (and on which `identFields` / the injectivity theorems
+rest). Same trust note: `boc.Cell.WriteUint/ReadUint` on a fresh cell as used by the translator is trusted here and
+proved for the model in C06. -/
+theorem gen_walletIdV5R1 (o : Opts) (hw : -(2 : Int) ^ 63 ≤ o.wc ∧ o.wc < 2 ^ 63)
+    (hn : -(2 : Int) ^ 31 ≤ o.netOr ∧ o.netOr < 2 ^ 31) :
+    (Gen.WalletV5Id.walletID (BitVec.ofInt 64 o.wc) (BitVec.ofInt 64 o.netOr)).toNat = walletIdV5R1 o :=
+  GenTies.gen_walletIdV5R1 o hw hn
+/-! ### errors of the blockchain interface, cancellation -/
+
+theorem confirmLoop_all_err (wait seqno : Nat) (ps : List Poll) :
+    confirmLoop wait seqno (ps.map fun p => { p with err := true }) = false := by
+  induction ps with
+  | nil => rfl
+  | cons p ps ih => simp [confirmLoop, ih]
+
+theorem confirmLoop_cancelFrom (wait seqno : Nat) : ∀ (j : Nat) (ps : List Poll),
+    confirmLoop wait seqno (cancelFrom j ps) = confirmLoop wait seqno (ps.take j)
+  | 0, ps => by simp [cancelFrom, confirmLoop_all_err, confirmLoop]
+  | _ + 1, [] => by simp [cancelFrom]
+  | j + 1, p :: ps => by
+    simp only [cancelFrom, List.take_succ_cons, confirmLoop, confirmLoop_cancelFrom wait seqno j ps]
+
+/-- Errors of the blockchain interface propagate and nothing is fabricated: a failing `GetAccountState` or a failing
+derivation of the parameters (undecodable data of an active account) ends the send with that error before anything is
+sent; a failing `SendMessage` is returned after the one attempt; a frozen account is treated like an uninitialised one
+by v3/v4/v5 (seqno 0, state-init attached). With a context-honouring blockchain, cancellation before call k shows as
+exactly these errors — before `GetAccountState` nothing is sent, before `SendMessage` the send fails — and during the
+confirmation phase the loop can only report success on a poll served BEFORE the cancellation (it keeps polling, every
+answer an error, until the deadline: the code never looks at the context itself). -/
+theorem send_error_propagates (loop : Nat → Nat → List Poll → Bool) (v : Version) (self : Address) (n : Nat) (sc : Script) (wait : Nat) :
+    (∀ e, sc.acct = .err e → (sendV2 loop v self n sc wait).outcome = .err e ∧ (sendV2 loop v self n sc wait).sent = none)
+    ∧ (∀ st e, sc.acct = .ok st → nextMessageParams v st = .err e →
+        (sendV2 loop v self n sc wait).outcome = .err e ∧ (sendV2 loop v self n sc wait).sent = none)
+    ∧ (∀ st np, sc.acct = .ok st → nextMessageParams v st = .ok np → n ≤ maxMessages v → sc.sendErr = true →
+        (sendV2 loop v self n sc wait).outcome = .err "send" ∧
+        (sendV2 loop v self n sc wait).sent = some { destWc := toI8 self.workchain, destHash := self.hash, init := np.init, seqno := np.seqno })
+    ∧ (v.family ≠ .v1v2 → v.family ≠ .highload → nextMessageParams v .frozen = .ok { seqno := 0, init := true })
+    ∧ ((sendV2Ctx loop v self n sc wait (some 0)).sent = none ∧ ∃ e, (sendV2Ctx loop v self n sc wait (some 0)).outcome = .err e)
+    ∧ (∀ k, k ≤ 1 → (sendV2Ctx loop v self n sc wait (some k)).outcome.isOk = false)
+    ∧ (∀ k seqno, confirmLoop wait seqno (sc.cancelled (some k)).polls = confirmLoop wait seqno (sc.polls.take (k - 2))) := by
+  refine ⟨?_, ?_, ?_, ?_, ?_, ?_, ?_⟩
+  · intro e h; simp [sendV2, h]
+  · intro st e h1 h2; simp [sendV2, h1, h2]
+  · intro st np h1 h2 hn hs
+    have hfam : v.family ≠ .v1v2 := by
+      intro hf; unfold nextMessageParams at h2; simp [hf] at h2
+    simp only [sendV2, h1, h2, rawSendV2, Nat.not_lt.mpr hn, ↓reduceIte, hs]
+    cases hf : v.family <;> simp_all
+  · intro h1 h2
+    unfold nextMessageParams
+    cases hf : v.family <;> simp_all
+  · simp [sendV2Ctx, Script.cancelled, sendV2]
+  · intro k hk
+    unfold sendV2Ctx sendV2
+    cases ha : (sc.cancelled (some k)).acct with
+    | err e => simp [Outcome.isOk]
+    | panic p => simp [Outcome.isOk]
+    | ok st =>
+      simp only []
+      cases hn : nextMessageParams v st with
+      | err e => simp [Outcome.isOk]
+      | panic p => simp [Outcome.isOk]
+      | ok np =>
+        have hse : (sc.cancelled (some k)).sendErr = true := by simp [Script.cancelled, hk]
+        simp only [rawSendV2, hse]
+        split
+        · simp [Outcome.isOk]
+        · cases hf : v.family <;> simp [Outcome.isOk]
+  · intro k seqno
+    simp only [Script.cancelled]
+    exact confirmLoop_cancelFrom wait seqno (k - 2) sc.polls
+
+/-! ### mnemonic → key -/
+
+section seed
+open Tongo.Wallet.Seed
+
+/-- `SeedToPrivateKey` accepts a text exactly when it has at least 12 space-separated fields and the first (only) byte
+of `PBKDF2(HMAC-SHA-512(key = text, msg = ""), "TON seed version", 390 iterations, 1 byte)` is 0 — the rule
+`checkSumSeed` tests — and then returns the Ed25519 key whose seed is
+`PBKDF2(same hash, "TON default seed", 100000 iterations, 32 bytes)`. There is no password variant in the code and
+the words are not looked up in the word list. (`Kdf` = the two primitives; the driver runs HMAC/PBKDF2-SHA-512.) -/
+theorem seed_version_check (K : Kdf) (seed : List UInt8) :
+    (∀ k, seedToPrivateKey K seed = .ok k ↔
+        (12 ≤ fieldCount seed ∧ checkSumSeed K seed = .ok true ∧
+          k = K.pbkdf2 (K.hmac seed []) saltDefault 100000 32 ∧ k.length = 32))
+    ∧ (checkSumSeed K seed = .ok true ↔ ∃ rest, K.pbkdf2 (K.hmac seed []) saltVersion 390 1 = 0 :: rest)
+    ∧ (fieldCount seed < 12 → ∃ e, seedToPrivateKey K seed = .err e)
+    ∧ (checkSumSeed K seed = .ok false → ∃ e, seedToPrivateKey K seed = .err e) := by
+  refine ⟨?_, ?_, ?_, ?_⟩
+  · intro k
+    unfold seedToPrivateKey seedToKeyWith checkSumSeed
+    by_cases hc : fieldCount seed < 12
+    · simp [hc]
+    · simp only [hc, ↓reduceIte]
+      cases hv : versionOk K versionIters seed with
+      | panic p => simp
+      | err e => simp
+      | ok b =>
+        cases b with
+        | false => simp
+        | true =>
+          simp only [seedHash, keyIters, true_and]
+          by_cases hl : (K.pbkdf2 (K.hmac seed []) saltDefault 100000 32).length = 32
+          · simp only [hl, ne_eq, not_true_eq_false, ↓reduceIte, Outcome.ok.injEq]
+            constructor
+            · intro h; subst h; exact ⟨by omega, rfl, hl⟩
+            · intro h; exact h.2.1.symm
+          · simp only [hl, ne_eq, not_false_eq_true, ↓reduceIte, reduceCtorEq, false_iff, not_and]
+            intro _ h; rw [h]; exact hl
+  · unfold checkSumSeed versionOk seedHash versionIters
+    cases h : K.pbkdf2 (K.hmac seed []) saltVersion 390 1 with
+    | nil => simp
+    | cons b rest => simp
+  · intro h
+    unfold seedToPrivateKey seedToKeyWith
+    simp [h]
+  · intro h
+    unfold seedToPrivateKey seedToKeyWith
+    unfold checkSumSeed at h
+    by_cases hc : fieldCount seed < 12
+    · simp [hc]
+    · simp [hc, h]
+
+theorem fieldCount_joinWords : ∀ (ws : List (List UInt8)), ws ≠ [] → (∀ w ∈ ws, 32 ∉ w) →
+    fieldCount (joinWords ws) = ws.length := by
+  intro ws
+  induction ws with
+  | nil => intro h; exact absurd rfl h
+  | cons w rest ih =>
+    intro _ hw
+    have hw0 : (w.filter (· == 32)).length = 0 := by
+      rw [List.length_eq_zero_iff, List.filter_eq_nil_iff]
+      intro x hx hx32
+      have : x = 32 := by simpa using hx32
+      exact hw w (by simp) (this ▸ hx)
+    cases rest with
+    | nil => simp [joinWords, fieldCount, hw0]
+    | cons w2 rest2 =>
+      have ih' := ih (by simp) (fun x hx => hw x (by simp [hx]))
+      unfold fieldCount at ih' ⊢
+      simp only [joinWords, List.filter_append, List.length_append, hw0, List.length_cons]
+      simp only [List.filter_cons, beq_self_eq_true, ↓reduceIte, List.filter_nil, List.length_cons, List.length_nil] at ih' ⊢
+      omega
+
+theorem wordIndices_length (bits : List Bool) (n : Nat) : (wordIndices bits n).length = n := by
+  induction n generalizing bits with
+  | zero => rfl
+  | succ n ih => simp [wordIndices, ih]
+
+/-- `RandomSeed` only returns seeds the version rule accepts: the result is the text built from one of the random
+draws, `checkSumSeed` holds for it, it has 24 fields (the words contain no space), and therefore `SeedToPrivateKey`
+accepts it (whenever PBKDF2 returns the 32 bytes asked for). -/
+theorem random_seed_accepted (K : Kdf) (words : Nat → List UInt8) (hw : ∀ i, 32 ∉ words i) (draws : List (List UInt8))
+    (s : List UInt8) (h : randomSeed K words draws = .ok (some s)) :
+    checkSumSeed K s = .ok true ∧ (∃ d ∈ draws, s = randSeed words d) ∧ fieldCount s = 24 ∧
+      ((K.pbkdf2 (K.hmac s []) saltDefault 100000 32).length = 32 →
+        seedToPrivateKey K s = .ok (K.pbkdf2 (K.hmac s []) saltDefault 100000 32)) := by
+  have hfc : ∀ d, fieldCount (randSeed words d) = 24 := by
+    intro d
+    unfold randSeed
+    rw [fieldCount_joinWords]
+    · simp [wordIndices_length]
+    · intro h
+      have := congrArg List.length h
+      simp [wordIndices_length] at this
+    · intro w hwm
+      obtain ⟨i, _, rfl⟩ := List.mem_map.mp hwm
+      exact hw i
+  have hmain : checkSumSeed K s = .ok true ∧ ∃ d ∈ draws, s = randSeed words d := by
+    induction draws with
+    | nil => simp [randomSeed] at h
+    | cons d ds ih =>
+      unfold randomSeed at h
+      cases hc : checkSumSeed K (randSeed words d) with
+      | panic p => simp [hc] at h
+      | err e => simp [hc] at h
+      | ok b =>
+        cases b with
+        | true =>
+          simp only [hc, Outcome.ok.injEq, Option.some.injEq] at h
+          subst h
+          exact ⟨hc, d, by simp, rfl⟩
+        | false =>
+          simp only [hc] at h
+          obtain ⟨h1, d', hd', h2⟩ := ih h
+          exact ⟨h1, d', by simp [hd'], h2⟩
+  obtain ⟨hck, d, hd, hs⟩ := hmain
+  refine ⟨hck, ⟨d, hd, hs⟩, by rw [hs]; exact hfc d, ?_⟩
+  intro hl
+  exact ((seed_version_check K s).1 _).mpr ⟨by rw [hs, hfc d]; decide, hck, rfl, hl⟩
+
+end seed
 
 /-! ### the hypotheses are satisfiable -/
 
